@@ -7,6 +7,7 @@ where
     K: KeyT + for<'a> From<&'a KeyRef>,
     V: ValT + Default,
     KeyRef: hb::Equivalent<K>,
+    crate::elem::KeyLen: hb::Equivalent<K>,
 {
 fn iter_op(&mut self, kind: u64, frac: u64, cont: u64) -> Result<(), Bad> {
     let s = &mut self.slots[self.cur];
@@ -414,9 +415,12 @@ fn get_many_op(&mut self, a: &[u64; crate::case::MAX_ARGS]) -> Result<(), Bad> {
     // returns (address, observed value, observed key id) per request
     type R = Vec<Option<(usize, u64, Option<u32>)>>;
     let map = &mut s.map;
-    macro_rules! call {
-        ($n:literal) => {{
-            let ks: [&K; $n] = std::array::from_fn(|i| &keys[i]);
+    // query form: the keys themselves, or (one call in three) unsized equivalents cut from ONE buffer, so
+    // that different keys start at the same address (a slice and its prefix)
+    let use_len = (a[5] >> 1) % 3 == 1 && ids.iter().all(|id| crate::elem::KeyLen::of(*id).is_some());
+    macro_rules! body {
+        ($ks:expr) => {{
+            let ks = $ks;
             catch_unwind(AssertUnwindSafe(|| -> R {
                 if kv {
                     let r = map.get_many_key_value_mut(ks);
@@ -445,6 +449,17 @@ fn get_many_op(&mut self, a: &[u64; crate::case::MAX_ARGS]) -> Result<(), Bad> {
                     out
                 }
             }))
+        }};
+    }
+    macro_rules! call {
+        ($n:literal) => {{
+            if use_len {
+                let ks: [&crate::elem::KeyLen; $n] = std::array::from_fn(|i| crate::elem::KeyLen::of(ids[i]).unwrap());
+                body!(ks)
+            } else {
+                let ks: [&K; $n] = std::array::from_fn(|i| &keys[i]);
+                body!(ks)
+            }
         }};
     }
     let r = match n {
